@@ -4,6 +4,7 @@ package main
 
 import (
 	"bytes"
+	"crypto/sha256"
 	"fmt"
 	"os"
 	"reflect"
@@ -507,6 +508,22 @@ func (g *gen) cflist(cfg chanobs.Config, version string, ops []chanobs.Op, cf *l
 			}
 		}
 	}
+	if err == nil {
+		// the same CFList with the RFU bytes 12..14 (channel-mask CFList) / the fifth
+		// channel (channel CFList) overwritten
+		// (bytes derived from the CFList itself: no draw from the random stream)
+		h := sha256.Sum256([]byte(term))
+		for k := 0; k < 2; k++ {
+			mb := append([]byte{}, b...)
+			for i := 12; i < 15; i++ {
+				mb[i] = h[4*k+i-12] | 1
+			}
+			if k == 1 {
+				mb[12+int(h[31])%3] = 0
+			}
+			g.cfDecode(cfg, "rfu-"+strings.Split(shape, ":")[0], mb, rp["history"])
+		}
+	}
 	g.s.Add(cases.Case{Term: fmt.Sprintf("CCFList %s %s %s %s %s", term, cq.Z(int64(g.lo)), cq.Z(int64(g.hi)), oe, od), Key: key, Kind: "cflist-" + strings.Split(shape, ":")[0], Nontrivial: true, Replay: rp})
 }
 
@@ -586,6 +603,45 @@ func blockPatterns(r *cq.RNG, n int, thorough bool) []blockPattern {
 	return out
 }
 
+// cfDecode: CFList.UnmarshalBinary on raw bytes; the decoded value is encoded
+// again, and the same bytes are decoded with bytes 12..14 zeroed.
+func (g *gen) cfDecode(cfg chanobs.Config, tag string, data []byte, history interface{}) {
+	key := fmt.Sprintf("cflist-dec:%s:%s:%x", cfg.Name, tag, data)
+	if g.seen[key] {
+		return
+	}
+	g.seen[key] = true
+	dec := func(d []byte) (string, *lorawan.CFList) {
+		var cf lorawan.CFList
+		switch chanobs.Call(func() error { return cf.UnmarshalBinary(d) }) {
+		case chanobs.KOk:
+			return cq.Ok(cflistCoq(&cf)), &cf
+		case chanobs.KErr:
+			return cq.Err, nil
+		}
+		return cq.Panic, nil
+	}
+	od, cf := dec(data)
+	ore := cq.Err
+	if cf != nil {
+		var rb []byte
+		switch chanobs.Call(func() error { var err error; rb, err = cf.MarshalBinary(); return err }) {
+		case chanobs.KOk:
+			ore = cq.Ok(cq.Bytes(rb))
+		case chanobs.KPanic:
+			ore = cq.Panic
+		}
+	}
+	z := append([]byte{}, data...)
+	for i := 12; i < 15 && i < len(z); i++ {
+		z[i] = 0
+	}
+	od0, _ := dec(z)
+	g.s.Add(cases.Case{Term: fmt.Sprintf("CCFDec %s %s %s %s", cq.Bytes(data), od, ore, od0), Key: key, Kind: "cflist-decode-" + tag, Nontrivial: true,
+		Replay: map[string]interface{}{"api": "CFList.UnmarshalBinary(bytes) -> CFList.MarshalBinary; the same bytes with bytes 12..14 zeroed",
+			"band": cfg.String(), "history": history, "bytes": fmt.Sprintf("%x", data), "decoded": od, "encoded_again": ore, "decoded_with_rfu_zeroed": od0}})
+}
+
 func maskHex(ms []lorawan.ChMask) []string {
 	out := make([]string, len(ms))
 	for i, m := range ms {
@@ -617,7 +673,7 @@ func main() {
 	dir, seed, thorough := cases.Args()
 	r := cq.NewRNG(seed)
 	s := cases.New("C15", dir, "LW.Corr.C15",
-		"14 bands (x repeater x dwell) x histories of up to 30 AddChannel/Disable/Enable calls with arbitrary ints (negative, huge, boundary) and frequencies (duplicates, zero, non-multiples of 100 Hz, 2.4 GHz, 32-bit extremes), each call under recover; after each history every accessor is read (all index lists, every uplink/downlink channel with its flags, GetCFList for 7 versions, index probes, lookups by frequency and frequency+DR); every frequency / DR / CFList the band then produces goes through the real RXParamSetupReq, NewChannelReq, DLChannelReq, PingSlotChannelReq, BeaconFreqReq, CFList and JoinAccept encoders and decoders; traces on one long-lived instance whose alphabet includes the observation calls (every accessor, GetCFList, LinkADRReq planning + apply), each answer compared with the model state at its position: every accessor directly before and after AddChannel / Disable / Enable, random interleavings with full snapshots; for US915/AU915/CN470 histories switching whole 16-channel blocks off (all, alternating, runs of 2-4 adjacent blocks at every position, single block left, sub-bands) whose channel-mask CFList must come back from the join-accept naming exactly the enabled channels. lookups by frequency and by frequency+DR (and the RX1-frequency lookup of US915/AU915/CN470) for the unit-conversion neighbours of every stored channel frequency (f+-1, +-49, +-50, +-99, +-100, +-101, +-1 kHz, rounded to 100 Hz / 1 kHz, bucket ends, f/100, f/1000, f*100, f/2, f*2) after histories adding custom channels at non-multiples of 100 Hz, two inside one 100 Hz bucket, one inside the bucket of a standard channel. custom channels at base+delta (delta in 0,1,2,50,99,100,101,199,200,201) around the band's own grid, the 2.4 GHz 200 Hz grid, the 1.2-1.6777 GHz range and the ends of the 24-bit field and of uint32, each through NewChannelReq, DLChannelReq and the CFList: refused or decoded back to the same values. Non-trivial = history non-empty (CHist) or any encoder case; distinct = distinct printed case")
+		"14 bands (x repeater x dwell) x histories of up to 30 AddChannel/Disable/Enable calls with arbitrary ints (negative, huge, boundary) and frequencies (duplicates, zero, non-multiples of 100 Hz, 2.4 GHz, 32-bit extremes), each call under recover; after each history every accessor is read (all index lists, every uplink/downlink channel with its flags, GetCFList for 7 versions, index probes, lookups by frequency and frequency+DR); every frequency / DR / CFList the band then produces goes through the real RXParamSetupReq, NewChannelReq, DLChannelReq, PingSlotChannelReq, BeaconFreqReq, CFList and JoinAccept encoders and decoders; traces on one long-lived instance whose alphabet includes the observation calls (every accessor, GetCFList, LinkADRReq planning + apply), each answer compared with the model state at its position: every accessor directly before and after AddChannel / Disable / Enable, random interleavings with full snapshots; for US915/AU915/CN470 histories switching whole 16-channel blocks off (all, alternating, runs of 2-4 adjacent blocks at every position, single block left, sub-bands) whose channel-mask CFList must come back from the join-accept naming exactly the enabled channels. lookups by frequency and by frequency+DR (and the RX1-frequency lookup of US915/AU915/CN470) for the unit-conversion neighbours of every stored channel frequency (f+-1, +-49, +-50, +-99, +-100, +-101, +-1 kHz, rounded to 100 Hz / 1 kHz, bucket ends, f/100, f/1000, f*100, f/2, f*2) after histories adding custom channels at non-multiples of 100 Hz, two inside one 100 Hz bucket, one inside the bucket of a standard channel. custom channels at base+delta (delta in 0,1,2,50,99,100,101,199,200,201) around the band's own grid, the 2.4 GHz 200 Hz grid, the 1.2-1.6777 GHz range and the ends of the 24-bit field and of uint32, each through NewChannelReq, DLChannelReq and the CFList: refused or decoded back to the same values. CFList.UnmarshalBinary on band-produced CFLists with bytes 12..14 overwritten and on raw byte strings (decoded value re-encoded; channel-mask RFU bytes must not matter). Non-trivial = history non-empty (CHist) or any encoder case; distinct = distinct printed case")
 	g := &gen{s: s, r: r, seen: map[string]bool{}}
 	cfgs := chanobs.Configs()
 	byName := func(n band.Name) chanobs.Config {
@@ -762,6 +818,49 @@ func main() {
 				g.history("stepping-"+rn, cfg, all)
 			}
 		}
+	}
+
+	// ---- CFList decoder on raw bytes: every type byte class, all-ones, masks in every
+	// slot incl. the RFU bytes, lengths around 16 ----
+	{
+		eu := byName(band.US915)
+		n := 40
+		if thorough {
+			n = 1200
+		}
+		for i := 0; i < n; i++ {
+			l := 16
+			if r.Intn(8) == 0 {
+				l = []int{0, 1, 12, 13, 14, 15, 17, 18, 28}[r.Intn(9)]
+			}
+			d := make([]byte, l)
+			switch r.Intn(4) {
+			case 0: // sparse
+				for k := r.Intn(4); k > 0 && l > 0; k-- {
+					d[r.Intn(l)] = byte(r.Intn(256))
+				}
+			case 1:
+				for j := range d {
+					d[j] = 0xff
+				}
+			default:
+				for j := range d {
+					d[j] = byte(r.Intn(256))
+				}
+			}
+			if l == 16 {
+				d[15] = []byte{1, 1, 1, 0, 0, 2, 255}[r.Intn(7)]
+				if r.Intn(3) == 0 { // only RFU bytes set
+					for j := 0; j < 12; j++ {
+						d[j] = 0
+					}
+				}
+			}
+			g.cfDecode(eu, "raw", d, nil)
+		}
+		// corpus: zero masks, RFU bytes set (decoded as a seventh mask before fix e2c2b92)
+		g.cfDecode(eu, "raw", []byte{0xff, 0, 0, 0, 0, 0, 0, 0, 0, 0, 0, 0, 1, 2, 3, 1}, nil)
+		g.cfDecode(eu, "raw", []byte{0, 0, 0, 0, 0, 0, 0, 0, 0, 0, 0, 0, 0xff, 0xff, 0, 1}, nil)
 	}
 
 	// ---- observation - call - observation, every accessor x every call -------
